@@ -58,7 +58,8 @@ for _k in WS_KINDS:
 GETPASS_WS = [(k, ws_variant("Zz11gpZz", k)) for k in WS_KINDS]
 # "yes" without newline = the last line of an input that ends there; "\r\n" = a DOS line ending
 STDIN_MENU = ["yes\n", "YES\n", "no\n", "n\n", "maybe\n", "\n", "y\n", "yes"]
-STDIN_EXTRA = ["yes\r\n", "Yes\n", "NO\n", "\uff59\uff45\uff53\n", "y" * 70000 + "\n", "ye"]   # thorough: case, full-width, very long line, cut-off last line
+LONG_LINE = "y" * 70000 + "\n"
+STDIN_EXTRA = ["yes\r\n", LONG_LINE]   # thorough: DOS line ending, very long unrecognised line
 MODES = ["bootloader", "signer", "ui-heartbeat", "0xff", "undefined", "status-error"]
 NAMES = {"btc": "m/44'/0'/0'/0/0", "rsk": "m/44'/137'/0'/0/0", "mst": "m/44'/137'/1'/0/0",
          "tbtc": "m/44'/1'/0'/0/0", "trsk": "m/44'/1'/1'/0/0", "tmst": "m/44'/1'/2'/0/0"}
@@ -236,7 +237,7 @@ class Operator:
             self.gone = "stdin"
             raise opstub.OperatorGone("stdin")
         v = self.stdin_menu[c]
-        self.lines.append((v, self.world.seq))
+        self.lines.append((v if len(v) < 64 else "<long line %d>" % len(v), self.world.seq))
         if not v.endswith("\n"):
             self.stdin_eof = 1e-9        # a last line without newline: the input ends after it
         return v
